@@ -55,6 +55,20 @@ CLAIMS = {
             'Not decided: "at most one datagram, same address, none for invalid tokens" (control flow of NetcodeServer, out of reach).'),
 }
 
+CLAIMS.update({
+    'C14': ('Per channel call: payload bytes put into packets (plus the pending small-message batch) equal the decrease of available_bytes, which never grows; '
+            'a reliable message or slice that does not fit stays queued untouched, an unreliable message that does not fit is dropped whole (Verus: SendChannelUnreliable::get_packets_to_send '
+            'verbatim with loop invariants; body of the reliable send loop outlined by rule D6).',
+            'Assumed: rule D6 (the outlined loop body is proved for an arbitrary element and loop state; that BTreeMap::iter_mut visits each entry once is std\'s protocol). '
+            'Not decided: threading of one available_bytes through the channels in channel_send_order inside RenetClient::get_packets_to_send (glue, out of reach); '
+            'the prologue/epilogue of SendChannelReliable::get_packets_to_send (early return, final flush) is not under contract.'),
+    'C15': ('Per call of the reliable send loop body for an arbitrary message and any current_time >= last_sent: a small message is not re-sent before resend_time and is sent '
+            '(timestamp = now, appended to the batch, budget charged) once it elapsed and the budget allows; every slice packet emitted is unacknowledged and due, its transmission time is recorded; '
+            'timestamps change only to now; acknowledged slices/messages are never emitted (process_*_ack removes the entry or sets the flag: U6).',
+            'Assumed: D6 iteration protocol; time is monotone (last_sent <= current_time). Not decided: the 3-second sent_packets horizon and ack->id lookup in RenetClient (out of reach); '
+            '"promptly" for slices is only the per-slice statement above, not a bound over ticks.'),
+})
+
 NOT_APPLICABLE = {
     'C05': 'decided entirely inside NetcodeServer::handle_connection_request/process_packet_internal: Verus rejects their iterator/closure/borrowed-result style and Kani cannot instantiate NetcodeServer (HashMap field; measured).',
     'C10': 'connection-table invariant is maintained only by NetcodeServer handshake code, out of reach of both engines (measured); no leaf function carries part of it.',
